@@ -11,6 +11,7 @@ check_wrapper decides, path-sensitively, that a public boolean wrapper F
 from . import guards
 from .flow import Flow
 from .ir import calls, strip_casts, ap, root_var, line, show, walk, cv
+from .units import AnalysisBroken
 
 
 def norm_callee(name):
@@ -328,3 +329,122 @@ def init_creates(fn):
                 missed.append(fn.loc[0])
         out.append((G, ctor, not missed, ln))
     return out
+
+
+def raw_allocations(prog, units):
+    """Record objects that come from the non-zeroing allocator.  The library's objects are zero-filled at birth (p_malloc0) and their
+    functions rely on it for every field the constructor does not store (counters, flags, links); a raw p_malloc is only sound when
+    every field that some function reads is stored on every path before the object leaves the constructor.
+    -> (number of record allocations seen, [(function, variable, record, allocator, missing fields, line)])"""
+    seen = 0
+    out = []
+    reads = {}          # record -> set of fields read somewhere
+    for u in prog.units.values():
+        for f in u.functions.values():
+            stores = set(id(strip_casts(n["l"])) for (b, i, n) in f.nodes(elsewhere=True) if n["k"] == "asg" and n.get("op") == "=")
+            for (b, i, n) in f.nodes(elsewhere=True):
+                if n["k"] == "member" and n.get("rec") and id(n) not in stores:
+                    reads.setdefault(n["rec"], set()).add(n["field"])
+    for un in units:
+        u = prog.units.get(un)
+        if u is None:
+            continue
+        for fn in sorted(u.functions.values(), key=lambda f: f.loc[0]):
+            allocs = []
+            for (b, i, n) in fn.nodes(elsewhere=True):
+                if n["k"] == "asg" and n.get("op") == "=":
+                    l, r = strip_casts(n["l"]), strip_casts(n["r"])
+                    if l is not None and l["k"] == "ref" and r is not None and r["k"] == "call" and r.get("callee") in ("p_malloc", "p_malloc0", "malloc", "calloc"):
+                        t = u.type_of(l)
+                        if t and t.get("k") == "ptr" and u.types[t["p"]].get("k") == "rec":
+                            allocs.append((l["name"], u.types[t["p"]].get("rec"), r.get("callee"), n))
+            for (v, rec, alloc, node) in allocs:
+                seen += 1
+                if alloc in ("p_malloc0", "calloc"):
+                    continue
+                need = set(f_ for f_ in reads.get(rec, ()) if u.records.get(rec) is None or u.records[rec].field(f_) is not None)     # same-named records of other models
+                missing = set()
+
+                def on_stmt(st, b, i, stmt, v=v, need=need, missing=missing, node=node):
+                    facts, started, stored = st
+                    for n in walk(stmt):
+                        if n is node:
+                            started, stored = True, frozenset()
+                        if not started:
+                            continue
+                        if n["k"] == "asg" and strip_casts(n["l"])["k"] == "member" and root_var(n["l"]) == v:
+                            m = strip_casts(n["l"])
+                            while strip_casts(m["base"])["k"] == "member":
+                                m = strip_casts(m["base"])
+                            stored = stored | {m["field"]}
+                        if n["k"] == "call" and n is not strip_casts(node["r"]):
+                            for a in n.get("args", ()):
+                                a2 = strip_casts(a)
+                                if a2 is not None and a2["k"] == "ref" and a2["name"] == v:
+                                    stored = stored | need                 # handed to a function (memset, an init helper)
+                                if a2 is not None and a2["k"] == "un" and a2.get("op") == "&" and root_var(a2) == v:
+                                    m = strip_casts(a2["e"])
+                                    while m is not None and m["k"] in ("member", "idx") and strip_casts(m["base"])["k"] in ("member", "idx"):
+                                        m = strip_casts(m["base"])
+                                    if m is not None and m["k"] == "member":
+                                        stored = stored | {m["field"]}
+                    if stmt["k"] == "ret" and started and root_var(stmt.get("e")) == v and guards.lookup(facts, v) != 0:
+                        missing.update(need - stored)
+                    return [(guards.transfer(facts, stmt), started, stored)]
+
+                def on_edge(st, b, to, on):
+                    f2 = guards.edge_assume(st[0], b, on)
+                    return None if f2 is None else (f2, st[1], st[2])
+                Flow(fn, [(guards.EMPTY, False, frozenset())], on_stmt, on_edge, max_states=20000).run()
+                if missing:
+                    out.append((fn, v, rec, alloc, sorted(missing), line(node)))
+    return seen, out
+
+
+def check_zero_init(rep, rule, prog, units, floor):
+    """One obligation per unit: its record objects are zero-filled at allocation, or fully initialised before they are returned."""
+    seen, bad = raw_allocations(prog, units)
+    byfn = dict((b[0].name, b) for b in bad)
+    for un in units:
+        u = prog.units.get(un)
+        if u is None:
+            continue
+        mine = [b for b in bad if b[0].unit is u]
+        anchor = mine[0][0] if mine else sorted(u.functions.values(), key=lambda f: f.loc[0])[0]
+        rep.ob(rule, anchor, "zero-init", not mine, "every record object allocated in %s is zero-filled at birth or fully stored before it is returned" % un if not mine else
+               "line %d: %s allocates its %s with %s and returns it with %s never stored: the functions that read %s rely on the zero the allocation used to fill in "
+               "(a recycled heap block, or a user allocator that does not clear, leaves garbage there)" % (
+                   mine[0][5], mine[0][0].name, mine[0][2].rstrip("_"), mine[0][3], ", ".join(mine[0][4]), "it" if len(mine[0][4]) == 1 else "them"), mine[0][5] if mine else anchor.loc[0])
+    if seen < floor:
+        raise AnalysisBroken("zero-init rule: only %d record allocations found in %s (expected at least %d)" % (seen, ", ".join(units), floor))
+    return seen
+
+
+def id_validity_tests(unit, field):
+    """Every test of an identifier field that a system call fills with `-1 on failure, any non-negative number otherwise` (System V ids,
+    descriptors): 0 is a valid id - Linux gives it to the first object created in an IPC namespace, descriptor 0 is free after a
+    daemon closed stdin - so a test must separate exactly {-1} (or the negatives) from the rest.
+    -> (number of tests seen, [(function, node, text)] of tests that treat 0, or another valid id, as invalid)"""
+    OK = {("==", -1), ("!=", -1), ("<", 0), (">=", 0), (">", -1), ("<=", -1)}
+    FLIP = {"<": ">", ">": "<", "<=": ">=", ">=": "<=", "==": "==", "!=": "!="}
+    seen, bad = 0, []
+    for f in sorted(unit.functions.values(), key=lambda f_: f_.loc[0]):
+        def is_id(e):
+            e = strip_casts(e)
+            return e is not None and e["k"] == "member" and e["field"] == field
+        for b in f.blocks.values():
+            if b.cond is not None and is_id(b.cond):
+                seen += 1
+                bad.append((f, b.cond, "tested for truth"))
+        for (b, i, n) in f.nodes(elsewhere=True):
+            if n["k"] == "bin" and n["op"] in FLIP:
+                for s_, o_ in (("l", "r"), ("r", "l")):
+                    if is_id(n[s_]) and cv(n[o_]) is not None:
+                        seen += 1
+                        op = n["op"] if s_ == "l" else FLIP[n["op"]]
+                        if (op, cv(n[o_])) not in OK:
+                            bad.append((f, n, "%s %s %d" % (field, op, cv(n[o_]))))
+            elif n["k"] == "un" and n.get("op") == "!" and is_id(n["e"]):
+                seen += 1
+                bad.append((f, n, "negated"))
+    return seen, bad
